@@ -48,6 +48,10 @@ type clusterCache struct {
 	metadataCerts           *metadataCerts // metadata certificates of proxy
 	endpointBuilder         *endpoints.EndpointBuilder
 
+	// whether the proxy has its own SDS sockets: decides where certificates named by a DestinationRule are fetched
+	credentialSocketExist     bool
+	fileCredentialSocketExist bool
+
 	// service attributes
 	http2          bool // http2 identifies if the cluster is for an http2 service
 	downstreamAuto bool
@@ -86,6 +90,10 @@ func (t *clusterCache) Key() any {
 	h.WriteString(strconv.FormatBool(t.supportsIPv4))
 	h.Write(Separator)
 	h.WriteString(strconv.FormatBool(t.hbone))
+	h.Write(Separator)
+	h.WriteString(strconv.FormatBool(t.credentialSocketExist))
+	h.Write(Separator)
+	h.WriteString(strconv.FormatBool(t.fileCredentialSocketExist))
 	h.Write(Separator)
 
 	if t.proxyView != nil {
@@ -210,5 +218,8 @@ func buildClusterKey(service *model.Service, port *model.Port, cb *ClusterBuilde
 		peerAuthVersion:         cb.sidecarScope.AuthnPolicies.GetVersion(),
 		serviceAccounts:         cb.req.Push.ServiceAccounts(service.Hostname, service.Attributes.Namespace),
 		endpointBuilder:         eb,
+
+		credentialSocketExist:     cb.credentialSocketExist,
+		fileCredentialSocketExist: cb.fileCredentialSocketExist,
 	}
 }
